@@ -203,6 +203,26 @@ def track_table(ctx, rid):
         return
     try:
         paths = explore(f, max_visits=2, pure=lambda c: c.name.endswith("::is_empty"), max_paths=50000)
+        # the loop body may live in a closure handed to Iterator::for_each; with disjoint captures the flags are
+        # closure slots `arg1.<i>`: map them back to the fields borrowed where the closure is built
+        for g in p.closures_of(f):
+            slot = {}
+            for bb, i, st in f.stmts():
+                if st[0] == "=" and st[2][0] == "agg" and isinstance(st[2][1], list) and st[2][1][0] == "closure" and st[2][1][1] == g.id:
+                    for j, op in enumerate(st[2][2]):
+                        if op[0] == "k":
+                            continue
+                        d = f.single_def(op[1][0])
+                        if d and d[1] == "assign" and d[2][2][0] == "ref":
+                            fs = [e for e in d[2][2][2][1] if isinstance(e, (list, tuple)) and e[0] == "f" and e[4]]
+                            if fs:
+                                slot["arg1.%d" % j] = fs[-1][4]
+            sub = explore(g, max_visits=2, max_paths=50000)
+            for pa in sub:
+                for e in pa.effects:
+                    if e.kind == "store" and e.name in slot:
+                        e.name = "captured." + slot[e.name]
+            paths += sub
     except TooManyPaths as e:
         r.undecidable(rid, str(e))
         return
@@ -227,11 +247,17 @@ def track_table(ctx, rid):
                 seen.setdefault(nm, set())
                 seen[nm] |= {frozenset(stores)}
         # has_formatting_errors
-        for (k, v) in decs:
-            if "::is_empty(" in k and isinstance(v, bool):
-                st = [e for e in path.effects if e.kind == "store" and e.name.endswith("has_formatting_errors")]
-                ok = (v is True and not st) or (v is False and len(st) >= 1 and vkey(st[0].args[0]) == "true")
-                fmt_ok = ok if fmt_ok is None else (fmt_ok and ok)
+        decided_empty = [v for (k, v) in decs if "::is_empty(" in k and isinstance(v, bool)]
+        stf = [e for e in path.effects if e.kind == "store" and e.name.endswith("has_formatting_errors")]
+        if decided_empty:
+            v = decided_empty[0]
+            ok = (v is True and not stf) or (v is False and len(stf) >= 1 and vkey(stf[0].args[0]) == "true")
+            fmt_ok = ok if fmt_ok is None else (fmt_ok and ok)
+        elif stf:
+            # unconditional form: flag |= !new_errors.is_empty()
+            val = vkey(stf[0].args[0]).replace(" ", "")
+            ok = "!" in val and "::is_empty(arg2)" in val and ("BitOr" in val or val.startswith("!"))
+            fmt_ok = ok if fmt_ok is None else (fmt_ok and ok)
     for nm, sets in sorted(seen.items()):
         exp = SPEC.get(nm, set())
         ok = sets == {frozenset(exp)}
@@ -281,7 +307,12 @@ def width_accounting(ctx, rid):
         for k, v in path.decisions:
             if k.startswith("(arg2 Eq ") and isinstance(v, bool):
                 tab = v
-                is_tab_lit = "9" in k or "\\t" in k or "'\t'" in k
+            elif k == "arg2":
+                # `match c { '\t' => .., _ => .. }`: a switch on the character itself
+                if v == 9:
+                    tab = True
+                elif isinstance(v, tuple) and v and v[0] == "other":
+                    tab = False
         st = [e for e in path.effects if e.kind == "store" and e.name == "arg1.line_len"]
         ok = False
         got = [vkey(e.args[0]) for e in st]
